@@ -178,6 +178,12 @@ func c11(r *core.Run) {
 			r.Sample(map[string]any{"case": segs[len(segs)/2].Label, "trace": core.SegTrace(segs[len(segs)/2])})
 		}
 		kind := k
+		if k.name == "memory-stream" {
+			segSelfTestLast(r, "replay", "ReplayTrace", "", segs, []core.Corruption{
+				{"the callback saw one event twice", core.DupFirst(`"e":"cb"`)},
+				{"the callback saw two events in the wrong order (or after Replay had returned)", core.SwapWithNext(`"e":"cb"`)},
+			})
+		}
 		r.ValidateSegments("c11-"+k.name, "ReplayTrace", "", segs, func(rej core.SegReject) *core.Segment {
 			m := rej.Seg.Meta.([5]any)
 			var ev struct {
